@@ -17,7 +17,7 @@ open GA.Bridge.Body (foldSpec)
 def scriptCtx (n : Nat) (hint : Nat × Option Nat) (sc : Script) : Ctx :=
   { n := n, bad := none, fpan := fun _ => false, cl := fun _ => none, src := fun j => pollOf sc (j - sc.k), hint := hint }
 
-def st0 (sc : Script) : St := ⟨⟨[], 0, 0, 0, []⟩, ⟨[], 0, 0, 0, []⟩, false, 0, false, sc.k, false⟩
+def st0 (sc : Script) : St := ⟨⟨[], 0, 0, 0, []⟩, ⟨[], 0, 0, 0, []⟩, false, 0, false, sc.k, false, {}⟩
 
 theorem scriptCtx_src (n : Nat) (hint : Nat × Option Nat) (sc : Script) (j : Nat) :
     (scriptCtx n hint sc).src (sc.k + j) = pollOf sc j := by
@@ -92,7 +92,7 @@ theorem C07_body_ledger (n : Nat) (hn : n < word) (hint : Nat × Option Nat) (sc
 def genCtx (n : Nat) (f : Nat → Option Id) : Ctx :=
   { n := n, bad := none, fpan := fun _ => false, cl := f }
 
-def gst0 : St := ⟨⟨[], 0, 0, 0, []⟩, ⟨[], 0, 0, 0, []⟩, false, 0, false, 0, false⟩
+def gst0 : St := ⟨⟨[], 0, 0, 0, []⟩, ⟨[], 0, 0, 0, []⟩, false, 0, false, 0, false, {}⟩
 
 theorem gen_run (f : Nat → Option Id) (n : Nat) (hn : n < word) :
     (runFn (genCtx n f) Gen.Body.intrusiveDrop.body Gen.Body.generate [] gst0).1 = (GA.Ops.generate f n).1 ∧
@@ -126,7 +126,7 @@ theorem C04_body_generate (f : Nat → Option Id) (n : Nat) (hn : n < word) :
 def foldCtx (n : Nat) (f : Nat → Bool) : Ctx :=
   { n := n, bad := none, fpan := fun k => !f k, cl := fun _ => none }
 
-def fst0 (xs : List Id) : St := ⟨⟨xs, 0, 0, 0, []⟩, ⟨[], 0, 0, 0, []⟩, false, 0, false, 0, false⟩
+def fst0 (xs : List Id) : St := ⟨⟨xs, 0, 0, 0, []⟩, ⟨[], 0, 0, 0, []⟩, false, 0, false, 0, false, {}⟩
 
 /-- interpreting the regenerated `fold` body (with `ArrayConsumer::new` / `iter_position` inlined and
     the regenerated `Drop for ArrayConsumer` run at scope end) = the model's `foldOp .owned` -/
